@@ -55,9 +55,24 @@ CLAIMED["C13"] = {
     "technique": "TLA+ set-algebra spec as trace-validation oracle, TLC-enumerated histories x configurations, model-checked lock protocol with forced counterexample schedules, linearizability by trace validation",
 }
 
+CLAIMED["C15"] = {
+    "level": "model_checking",
+    "text": ("componentReachDFS and its bounded cache are transcribed step by step into ReachCache.tla and model-checked over all 1024 "
+             "DAGs on 5 components x all query sequences up to 3 x capacities 1/2/5 with eviction allowed at any step (every cached "
+             "entry and every answer = true reach). TLC generates every (DAG, capacity, query sequence) and every digraph on 3-4 "
+             "nodes; each is built in the adjacency-map and CSR containers under three id embeddings, and the SCC partition, "
+             "component graph and every answer (reach, reach-slice, can-reach in three directions, or/xor-reach) of the real code are "
+             "validated by TLC against plain reachability, with a final sweep that reads every cache entry back."),
+    "design_ref": "DESIGN.md 4/C15",
+    "note": ("Graphs of at most 5 components / 10 nodes (exhaustive) - every defect found so far has a 4-5 component witness; query "
+             "sequences <= 3 plus sweep; SIEVE abstracted by nondeterministic eviction in the model, exercised as is on the real code. "
+             "Trusts TLC and the harness's id embedding."),
+    "technique": "TLA+ model checking of the transcribed DFS/cache mechanism + TLC-enumerated graphs x histories replayed on the real containers + TLC trace validation against plain reachability",
+}
+
 _NB = "not built yet in this round (design in DESIGN.md section 4)"
 NOT_APPLICABLE = {
     "C01": "needs the emitted SQL executed on PostgreSQL; no SQL engine exists in this sandbox and a TLA+ model of PostgreSQL would verify the model, not DAWGS (DESIGN.md section 5)",
     "C02": _NB, "C03": _NB, "C04": _NB, "C05": _NB, "C06": _NB, "C07": _NB, "C08": _NB, "C09": _NB, "C10": _NB,
-    "C11": _NB, "C14": _NB, "C15": _NB, "C17": _NB, "C18": _NB, "C19": _NB, "C20": _NB,
+    "C11": _NB, "C14": _NB, "C17": _NB, "C18": _NB, "C19": _NB, "C20": _NB,
 }
